@@ -390,6 +390,19 @@ func (g *G) counterClosure() string {
 	n, f := g.fresh("n"), g.fresh("inc")
 	g.declare(n, TInt, false)
 	g.declare(f, TFn0, true)
+	if g.r.Intn(3) == 0 {
+		// a copied closure (directly or inside a container) still shares the captured variable
+		g.f("closure-copy")
+		cp, a, b := g.fresh("f"), g.fresh("v"), g.fresh("v")
+		g.declare(cp, TFn0, true)
+		g.declare(a, TInt, false)
+		g.declare(b, TInt, false)
+		mk := "copy(" + f + ")"
+		if g.r.Intn(2) == 0 {
+			mk = "copy({fn: " + f + "}).fn"
+		}
+		return n + " := " + g.lit(TInt) + "; " + f + " := func() { " + a + "t := " + n + " + 3; " + n + " = " + a + "t; return " + n + " }; " + cp + " := " + mk + "; " + a + " := " + f + "(); " + b + " := " + cp + "() * 2 + " + n
+	}
 	return n + " := " + g.lit(TInt) + "; " + f + " := func() { " + n + " " + pick(g.r, []string{"+=", "-=", "*=", "="}) + " " + g.lit(TInt) + "; return " + n + " }"
 }
 
